@@ -125,7 +125,8 @@ class C17(Prop):
             if m == "op" and rng.random() < 0.5:
                 k["noreply"] = rng.choice([True, False])
             out.append({"property": self.id, "cell": ci,
-                        "world": {"stack": "retrying_stub", "retry_kwargs": rk, "script": list(seq)},
+                        "world": {"stack": "retrying_stub", "retry_kwargs": rk, "script": list(seq),
+                                  "stub_inherits": rng.random() < 0.4},
                         "steps": [{"t": "call", "m": m, "a": a, "k": k}]})
         # invalid configurations
         for _ in range(3):
